@@ -264,6 +264,16 @@ def _h_combinators(rec):
 
 HANDLERS["combinators"] = _h_combinators
 HANDLERS["losses"] = _grid_handler("rt_c17", "C17 loss re-evaluation")
+def _h_simple(rec):
+    cls = (rec.get("replay") or {}).get("cls", "")
+    prop = rec["property"] if rec["property"] in ("C01", "C02") else "C01"
+    fails = rt.rt_zoo_B(prop, first_only=True, only=cls) or rt.rt_zoo_B("C02" if prop == "C01" else "C01", first_only=True, only=cls)
+    if fails:
+        return True, fails[0]["what"]
+    return False, f"contract B (round trips, same point, log-dets vs autodiff) holds on the real {cls} objects of the zoo"
+
+
+HANDLERS["simple"] = _h_simple
 HANDLERS["triangular"] = _grid_handler("rt_triangular", "TriangularAffine trained-leaf")
 HANDLERS["transformed"] = _grid_handler("rt_c03", "C03 change-of-variables")
 HANDLERS["merge_transforms"] = _grid_handler("rt_c03", "C03 change-of-variables")
